@@ -1,5 +1,6 @@
 pub mod c03;
 pub mod c04;
+pub mod c08;
 pub mod c14;
 pub mod c17;
 pub mod c18;
